@@ -7,10 +7,10 @@ import re
 from collections import Counter
 from fractions import Fraction
 
-from ..gen.ledger import Opts, gen_ledger
+from ..gen.ledger import Opts, gen_ledger, render_dsl
 from ..model import fmt
 from ..probe import probe
-from ..util import cap_viols, rng_for, sha, fr, dstr, iso, d as pdate, round_half_away, ZERO
+from ..util import cap_viols, rng_for, sha, fr, dstr, iso, d as pdate, round_half_away, tax_year_of, ZERO
 from . import ledger_core as lc
 
 PROP = "C17"
@@ -31,6 +31,7 @@ def plan(tier, seed):
     shards = []
     for cls in ("midpoint", "random", "large", "negzero"):
         shards += [{"cls": cls, "seed": seed, "shard": i, "n": 60} for i in range(k)]
+    shards += [{"cls": "cli", "seed": seed, "shard": i, "n": 10} for i in range(16 if tier == "quick" else 200)]
     shards += [{"cls": "mcp", "seed": seed, "shard": i, "n": 4} for i in range(8 if tier == "quick" else 80)]
     return shards
 
@@ -635,9 +636,64 @@ def run_mcp(desc):
             "violations": cap_viols(viols), "samples": []}
 
 
+def exec_cli_front_end(txs, year, embedded):
+    """The real binary against the library's own formatters for the same ledger: `report --format plain|json` must print
+    exactly the library's text / JSON (same code, so byte equality up to the final newline), with or without a year filter,
+    under the embedded exemption table or an all-years config file."""
+    from ..clidrv import run_cli_report
+    viols = []
+    o = probe().one(dict(lc.calc_case(txs, fx="bundled", year=year, exemptions="embedded" if embedded else lc.ALL_YEARS),
+                         outputs=["plain", "json"]))
+    case = {"op": "cli-front-end", "txs": txs, "year": year, "embedded": embedded}
+    for fmt_ in ("json", "plain"):
+        r = run_cli_report(render_dsl(txs), fmt=fmt_, year=year, config_all_years=not embedded)
+        if r["timeout"] or "panic" in o:
+            return viols, "skipped"
+        if ("ok" in o) != (r["exit"] == 0):
+            viols.append({"clause": "cli-acceptance-differs-from-library", "signature": "cli:acceptance-differs-from-library",
+                          "detail": f"--format {fmt_} year={year}: library {'accepted' if 'ok' in o else o.get('err', {}).get('message', '')[:100]} | "
+                                    f"cli exit {r['exit']}: {r['stderr'][:140]}", "case": case})
+            return viols, "judged"
+        if "ok" not in o:
+            return viols, "both_refused"
+        if fmt_ == "json":
+            want, got = json.loads(o["ok"]["json"]), json.loads(r["stdout"])
+            if want != got:
+                keys = [k for k in set(want) | set(got) if want.get(k) != got.get(k)]
+                viols.append({"clause": "cli-json-differs-from-library", "signature": "cli:json-differs-from-library",
+                              "detail": f"year={year}: keys differing: {keys}", "case": case})
+        else:
+            if r["stdout"].rstrip("\n") != o["ok"]["plain"].rstrip("\n"):
+                a, b = r["stdout"].splitlines(), o["ok"]["plain"].splitlines()
+                i = next((k for k, (x, y) in enumerate(zip(a, b)) if x != y), min(len(a), len(b)))
+                viols.append({"clause": "cli-text-differs-from-library", "signature": "cli:text-differs-from-library",
+                              "detail": f"year={year}: first differing line {i + 1}: cli {a[i] if i < len(a) else None!r} | "
+                                        f"library {b[i] if i < len(b) else None!r}", "case": case})
+    return viols, "judged"
+
+
+def run_cli_front_end(desc):
+    rng = rng_for(PROP, desc["seed"], "cli", desc["shard"])
+    cnt, viols, hashes, samples = Counter(), [], set(), []
+    for _ in range(desc["n"]):
+        txs = gen_case(rng, rng.choice(["random", "random", "midpoint", "negzero"]))
+        years = sorted({tax_year_of(pdate(t["date"])) for t in txs})
+        year = rng.choice(years + [years[0] - 1]) if rng.random() < 0.4 else None
+        embedded = rng.random() < 0.4
+        vs, how = exec_cli_front_end(txs, year, embedded)
+        cnt["cli_front_end_" + how] += 1
+        if year is not None:
+            cnt["cli_front_end_with_year_filter"] += 1
+        hashes.add(sha([txs, year, embedded])[:16])
+        viols += vs
+    return {"evaluations": 3 * desc["n"], "nontrivial_hashes": hashes, "counters": cnt, "violations": cap_viols(viols), "samples": samples}
+
+
 def run_shard(desc):
     if desc["cls"] == "mcp":
         return run_mcp(desc)
+    if desc["cls"] == "cli":
+        return run_cli_front_end(desc)
     rng = rng_for(PROP, desc["seed"], desc["cls"], desc["shard"])
     cnt = Counter()
     viols = []
@@ -669,6 +725,9 @@ def run_shard(desc):
 
 
 def replay(case):
+    if case.get("op") == "cli-front-end":
+        vs, how = exec_cli_front_end(case["txs"], case.get("year"), case.get("embedded"))
+        return vs, {"how": how}
     o = probe().one(dict(lc.calc_case(case["txs"], fx="bundled"), outputs=["plain", "json", "pdf_runs"]))
     vs = []
     if "ok" in o:
@@ -676,11 +735,13 @@ def replay(case):
     return vs, {"plain": o.get("ok", {}).get("plain"), "pdf_runs": o.get("ok", {}).get("pdf_runs"), "json": o.get("ok", {}).get("json")}
 
 
-THRESHOLDS = {"pdf_holdings_rows_read": 1000, "pdf_transaction_rows_read": 3000, "plain_midpoint_figures": 1000, "json_midpoint_figures": 1000, "pdf_midpoint_figures": 1000,
+THRESHOLDS = {"cli_front_end_judged": 60, "pdf_holdings_rows_read": 1000, "pdf_transaction_rows_read": 3000, "plain_midpoint_figures": 1000, "json_midpoint_figures": 1000, "pdf_midpoint_figures": 1000,
               "plain_negative_figures": 300, "pdf_negative_figures": 300, "pdf_figures_ge_1e6": 200,
               "plain_figures_ge_1e6": 200, "pdf_foreign_echoes": 100, "reports": 1500,
               "mcp_calculate_answers": 20, "mcp_explain_answers": 30, "mcp_figures": 300}
 RULE = ("ledgers constructed so that results sit on half-pence midpoints (x.xx5 prices/fees, unit quantities), zero and "
         "negative results, amounts of 1e6-1e10 pounds, 6-9 decimal quantities and foreign-currency echoes, plus random "
         "ledgers; every figure of the plain text, the JSON report and the PDF text runs (hook H1) is parsed back and "
-        "compared with the full-precision computed value (in full or pence half away from zero); distinct by ledger hash")
+        "compared with the full-precision computed value (in full or pence half away from zero); the real `cgt-tool report` "
+        "(plain and JSON, with and without --year, embedded table or all-years config) must print exactly what the library's "
+        "formatters produce for the same ledger; distinct by ledger hash")
